@@ -35,7 +35,7 @@ def models(rng):
         wf = {'id': 'm1', 'steps': [{'id': 's1', 'branches': bs}, {'id': 's2', 'acts': [irq('a4', 'k4')]}]}
     elif kind == 'outputs':
         wf = {'id': 'm1', 'inputs': {'x': 0}, 'outputs': {'x': None}, 'steps': [
-            {'id': 's1', 'acts': [irq('a1', 'k1', outputs={'x': None}), irq('a2', 'k2', outputs={'y': None, 'z': None})]},
+            {'id': 's1', 'acts': [irq('a1', 'k1', outputs={'x': None}), irq('a2', 'k2', outputs={'y': None, 'z': 5, 'w': '{{ x }}'})]},
             {'id': 's2', 'acts': [irq('a4', 'k4')]}]}
     elif kind == 'generator':
         g = rng.choice(['acts.core.parallel', 'acts.core.sequence'])
@@ -79,8 +79,10 @@ def options_for(rng, action, wf, valid_bias=0.7):
         return {}
     if r < 0.7:
         return {'x': rng.randint(10, 99)}
-    if r < 0.85:
-        return {'x': 1, 'y': 2, 'z': 3, '__p': 4}
+    if r < 0.8:
+        return {'x': 1, 'y': 2, 'z': 3, 'w': 4, '__p': 4}
+    if r < 0.9:
+        return {'y': 1, 'z': 2}
     return {'y': 1}
 
 
